@@ -47,7 +47,11 @@ def check_case(c):
     d = diff(xstrip(c["ast"]), proj(ast.ext[0].body))
     if d:
         import re
-        return "body differs: %s feat=%s" % (re.sub(r"\[\d+\]", "[i]", d)[:120], ",".join(sorted(c["feat"]))), src
+        d = re.sub(r"\[\d+\]", "[i]", d)
+        path, _, rest = d.partition(": ")
+        if len(path) > 60:          # a deep path: keep its end (the findings file is keyed on the last segments)
+            path = ".." + path[-60:]
+        return "body differs: %s: %s feat=%s" % (path, rest[:80], ",".join(sorted(c["feat"]))), src
     return None
 
 
